@@ -293,7 +293,7 @@ pub fn run(rep: &mut Report) {
     // order independence (depth-2 operation sequences on one thread): format + parse round trips of 18 dates x 3 scales in
     // every order (a parser or formatter that keeps scratch state between calls)
     {
-        let od: Vec<i64> = [(1i64, 1i64, 1i64), (1, 3, 1), (4, 2, 29), (1400, 1, 1), (1582, 10, 15), (1899, 12, 31), (1900, 1, 1), (1900, 3, 1), (1972, 6, 30), (2000, 2, 29), (2016, 12, 31), (2017, 1, 1), (2024, 11, 30), (2400, 1, 1), (2400, 12, 31), (9999, 12, 31), (-400, 3, 1), (12_000, 7, 4)].iter().map(|(y, m, d)| days1900(*y, *m, *d)).filter(|d| *d >= lo && *d <= hi).collect();
+        let od: Vec<i64> = [(1i64, 1i64, 1i64), (1, 3, 1), (4, 2, 29), (1400, 1, 1), (1582, 10, 15), (1899, 12, 31), (1900, 1, 1), (1900, 3, 1), (1972, 6, 30), (2000, 2, 29), (2016, 12, 31), (2017, 1, 1), (2024, 11, 30), (2400, 1, 1), (2400, 12, 31), (9999, 12, 31), (-400, 3, 1), (12_000, 7, 4)].iter().map(|(y, m, d)| days1900(*y, *m, *d)).chain([18_427i64, -18_427, 36_525, -36_525]).filter(|d| *d >= lo && *d <= hi).collect(); // (+ days mirrored about 1900-01-01)
         let os = [TimeScale::UTC, TimeScale::TAI, TimeScale::BDT];
         let no = od.len() as u64;
         let lp = &leap;
